@@ -281,14 +281,21 @@ def normalize_user_regions(
         for reference in bam_references:
             regions[reference].append((0, None))
     else:
-        bam_references = set(bam_references)
+        known_references = set(bam_references)
         for region_spec in user_regions:
             region = Region.parse(region_spec)
-            if region.chromosome not in bam_references:
+            if region.chromosome not in known_references:
                 raise ValueError(
                     "Requested reference '{region.chromosome}' not found in input BAM/CRAM"
                 )
             regions[region.chromosome].append((region.start, region.end))
+        # Alignments are written in the order of the input file, whatever the order in which
+        # the regions were given: chromosomes as in the BAM header, regions from left to right
+        regions = {
+            reference: sorted(regions[reference], key=lambda region: region[0])
+            for reference in bam_references
+            if reference in regions
+        }
     return regions
 
 
